@@ -129,6 +129,8 @@ def signbit (b : Nat) : Bool := F.sign b
 def lt (x y : Nat) : Bool := !F.isNaN x && !F.isNaN y && decide (F.key x < F.key y)
 /-- zeros of opposite sign: C leaves the choice of fmin/fmax open -/
 def zerosDiffer (x y : Nat) : Bool := F.isZero x && F.isZero y && (F.sign x != F.sign y)
+/-- signaling NaN (quiet bit clear): "this specification does not define the behavior of signaling NaNs" (C17 F.2.1) -/
+def isSNaN (b : Nat) : Bool := F.isNaN b && (F.man b / 2 ^ (F.mbits - 1) == 0)
 def fmin (x y : Nat) : Nat :=
   if F.isNaN x then (if F.isNaN y then F.qnan else y)
   else if F.isNaN y then x
